@@ -435,6 +435,7 @@ pub struct Features {
     pub option: bool,
     pub vec: bool,
     pub tag_clash: bool,
+    pub key_clash: bool,
     pub rename: bool,
     pub recursive: bool,
 }
@@ -450,6 +451,12 @@ impl Catalogue {
     fn feat_fields(&self, fields: &[FieldDef], rename_all: Option<RenameAll>, tag: Option<&str>, f: &mut Features, seen: &mut Vec<usize>) {
         if rename_all.is_some() {
             f.rename = true;
+        }
+        let keys: Vec<String> = fields.iter().filter(|x| !x.skip).map(|x| x.key(rename_all)).collect();
+        for (i, k) in keys.iter().enumerate() {
+            if keys[..i].contains(k) {
+                f.key_clash = true;
+            }
         }
         for fd in fields {
             if fd.rename.is_some() {
